@@ -17,13 +17,6 @@ one of the three spell-corrected identifiers. Rendering as in harness/fam_profil
 namespace Drv.Profile
 open Drv Fit.ProfileSpec Fit.Gen
 
-/-- the class table of KF-C17-1 (the same three pairs as `Fit.C17.f14`; `FitProps/C17.lean` proves the tables
-agree modulo exactly this list) -/
-def f14 : List (Nat × Nat) := [
-  (0x1636164656e63655f7a6f6e655f686967685f626f6e64617279, 0x1636164656e63655f7a6f6e655f686967685f626f756e64617279),
-  (0x1636f6e6e6563745f69715f6170705f6d616e61676d656e74, 0x1636f6e6e6563745f69715f6170705f6d616e6167656d656e74),
-  (0x1646567726565735f666172656e68656974, 0x1646567726565735f66616872656e68656974)]
-
 def escByte (b : Nat) : String :=
   let c := Char.ofNat b
   if c.isAlphanum || c == '_' then String.singleton c
@@ -52,10 +45,21 @@ def unknownField (k : Nat) : FieldRow :=
   { num := k, name := 0x1756e6b6e6f776e, ptype := 0x1656e756d, baseType := 0, array := false, acc := false,
     scale := 0x3ff0000000000000, offset := 0, units := 1, comps := [], subs := [] }
 
-def tables (spec : Bool) : List Mesg := if spec then Xlsx.mesgs else Prof.mesgs
-def typeRows (spec : Bool) : List TypeRow := if spec then Xlsx.types.map TypeRow.dedupe else Prof.types
+/-- where a row is read from: the dump of the compiled packages, the spreadsheet, or the spreadsheet with exactly the three
+spell-corrections of KF-C17-1 applied (`Fit.ProfileSpec.f14`) -/
+inductive Src | prof | xlsx | xlsxFixed
+  deriving BEq
 
-def prow (spec : Bool) (args : List String) : String :=
+def tables : Src → List Mesg
+  | .prof => Prof.mesgs
+  | .xlsx => Xlsx.mesgs
+  | .xlsxFixed => Xlsx.mesgs.map (Mesg.fix f14)
+def typeRows : Src → List TypeRow
+  | .prof => Prof.types
+  | .xlsx => Xlsx.types.map TypeRow.dedupe
+  | .xlsxFixed => Xlsx.types.map fun t => (t.dedupe).fix f14
+
+def prow (spec : Src) (args : List String) : String :=
   match args with
   | [n] => match n.toNat? with
     | some n => match (tables spec).find? (·.num == n) with
@@ -64,7 +68,7 @@ def prow (spec : Bool) (args : List String) : String :=
     | none => "bad-op"
   | _ => "bad-op"
 
-def pfield (spec : Bool) (args : List String) : String :=
+def pfield (spec : Src) (args : List String) : String :=
   match args with
   | [n, k] => match n.toNat?, k.toNat? with
     | some n, some k =>
@@ -77,7 +81,7 @@ def pfield (spec : Bool) (args : List String) : String :=
     | _, _ => "bad-op"
   | _ => "bad-op"
 
-def ptype (spec : Bool) (args : List String) : String :=
+def ptype (spec : Src) (args : List String) : String :=
   match args with
   | [i] => match i.toNat? with
     | some i => match (typeRows spec)[i]? with
@@ -92,13 +96,13 @@ def btSize (t : Nat) : Nat := Prof.btSizes.getD t 0
 def baseInvalid (bt : Nat) : Nat :=
   if bt == 10 || bt == 139 || bt == 140 || bt == 144 then 0 else 2 ^ (8 * btSize bt) - 1
 
-def pstr (spec : Bool) (args : List String) : String :=
+def pstr (spec : Src) (args : List String) : String :=
   match args with
   | [i] => match i.toNat? with
     | some i =>
-      if spec then
+      if spec != .prof then
         -- what the property demands: every constant of the spreadsheet maps to its name and back
-        match (typeRows true)[i]? with
+        match (typeRows spec)[i]? with
         | some t => " ".intercalate ([esc t.name, s!"inv={baseInvalid t.baseType}/{baseInvalid t.baseType}"] ++
             t.consts.map fun c => s!"{c.value}={esc c.name}={c.value}")
         | none => "none"
@@ -109,9 +113,11 @@ def pstr (spec : Bool) (args : List String) : String :=
     | none => "none"
   | _ => "none"
 
-/-- class of KF-C17-1: the spreadsheet row (message / field / type) this op reads mentions one of the three spellings -/
-def kfClass (op : String) (args : List String) : String :=
-  let hit : Bool :=
+/-- class of KF-C17-1: the spreadsheet row (message / field / type) this op reads carries one of the three spellings of
+`Fit.ProfileSpec.f14` AND the three spell-corrections are the ONLY difference between the spreadsheet row and the row of the
+compiled packages (a fourth corrected identifier, or any other difference in the same row, is not in the class) -/
+def kfClass (op : String) (f : Src → List String → String) (args : List String) : String :=
+  let mentions : Bool :=
     match op, args with
     | "pmesgx", [n] => match n.toNat? with
       | some n => (Xlsx.mesgs.find? (·.num == n)).any (Mesg.mentions f14)
@@ -123,13 +129,13 @@ def kfClass (op : String) (args : List String) : String :=
       | some i => (Xlsx.types[i]?).any (TypeRow.mentions f14)
       | none => false
     | _, _ => false
-  if hit then "KF-C17-1" else "-"
+  if mentions && f .prof args == f .xlsxFixed args then "KF-C17-1" else "-"
 
-def mk (op : String) (f : Bool → List String → String) : Handler := fun r =>
+def mk (op : String) (f : Src → List String → String) : Handler := fun r =>
   match r.mode with
-  | .model => f false r.args
-  | .spec => f true r.args
-  | .kf => kfClass op r.args
+  | .model => f .prof r.args
+  | .spec => f .xlsx r.args
+  | .kf => kfClass op f r.args
   | .prop => "n/a"
 
 def hProw : Handler := mk "pmesgx" prow
